@@ -581,13 +581,39 @@ def _dict_lookup(obj, key):
 
 
 def _tuple_key_conds(obj, key):
-    ck = ("tkc", id(obj), tuple(_piece_ids(a) for a in key))
-    hit = ctx.path_cache.get(ck)
-    if hit is not None and hit[0] is obj:
+    ck = ("tkc", id(obj), len(obj), tuple(_piece_ids(a) for a in key))
+    hit = _TKC.get(ck)
+    if hit is not None and hit[0] is obj and _same_pieces(hit[3], key):
         return hit[1], hit[2]
     cands, zs = _tuple_key_conds_(obj, key)
-    ctx.path_cache[ck] = (obj, cands, zs, key)
+    if len(_TKC) > 64:
+        _TKC.clear()
+    _TKC[ck] = (obj, cands, zs, key)  # the key (and its z3 terms) stays alive, so ids cannot be reused
     return cands, zs
+
+
+_TKC = {}
+
+
+def _same_pieces(k1, k2):
+    for a, b in zip(k1, k2):
+        a = a._s if isinstance(a, StrBase) else a
+        b = b._s if isinstance(b, StrBase) else b
+        if isinstance(a, SymStr) and isinstance(b, SymStr):
+            if len(a.p) != len(b.p):
+                return False
+            for x, y in zip(a.p, b.p):
+                if isinstance(x, int) or isinstance(y, int):
+                    if x is not y and x != y:
+                        return False
+                elif hasattr(x, "eq"):
+                    if not (hasattr(y, "eq") and x.eq(y)):
+                        return False
+                elif x is not y:
+                    return False
+        elif a != b:
+            return False
+    return True
 
 
 def _piece_ids(a):
